@@ -3,6 +3,7 @@ package main
 // Forward symbolic execution of go/ssa function bodies, path by path, in continuation-passing style.
 
 import (
+	"os"
 	"fmt"
 	"go/ast"
 	"go/constant"
@@ -120,6 +121,11 @@ type Exec struct {
 	topEnvVars map[string]Val
 	interior   map[*Term][]*LVal
 	tupleLV    map[*Term]*LVal
+	modelSeq   int
+	tapeMode   bool
+	regIdx     *regIndex
+	regTried   bool
+	loaded     *Loaded
 }
 
 func newExec(prog *ssa.Program, fset *token.FileSet, cs *ContractSet) *Exec {
@@ -671,7 +677,10 @@ func (x *Exec) step(fr *Frame, st *State, ins ssa.Instruction) {
 		x.nilCheck(fr, st, p, in.Pos(), "store")
 		v := x.get(fr, in.Val)
 		lv := derefPtr(p)
-		v = x.escapeCheck(v)
+		v = x.escapeCheck(st, v)
+		if x.tapeMode && os.Getenv("GOCV_TRACE_CONTRACTS") != "" {
+			fmt.Fprintf(os.Stderr, "store %s: %s ref=%s path=%s := %s\n", x.posOf(in.Pos()), lv.Prefix, lv.Ref, lv.Path, v.String())
+		}
 		x.checkedStore(fr, st, lv, v, in.Pos())
 	case *ssa.Extract:
 		fr.env[in] = tupleElem(x.get(fr, in.Tuple), in.Index)
@@ -743,10 +752,10 @@ func (x *Exec) dropLastWrites(st *State, n int) {
 
 // escapeCheck: an interior pointer stored into memory loses its meta-level address (imprecise but sound:
 // later loads through it read unconstrained memory). Recorded as a note.
-func (x *Exec) escapeCheck(v Val) Val {
+func (x *Exec) escapeCheck(st *State, v Val) Val {
 	if v.LV != nil {
 		x.note("interior pointer stored to memory (address identity abstracted)")
-		x.interior[v.C[0]] = append(x.interior[v.C[0]], v.LV)
+		st.addInterior(v.C[0], v.LV)
 	}
 	return v
 }
@@ -932,7 +941,7 @@ func (x *Exec) unop(fr *Frame, st *State, in *ssa.UnOp) Val {
 			return x.loadGlobal(st, g, lv)
 		}
 		v := x.loadWF(st, lv)
-		v = x.reattachInterior(v)
+		v = x.reattachInterior(st, v)
 		return v
 	case token.ARROW:
 		v := freshVal(in.Type(), "recv")
@@ -944,9 +953,9 @@ func (x *Exec) unop(fr *Frame, st *State, in *ssa.UnOp) Val {
 
 // reattachInterior restores the meta-level address of an interior pointer read back from memory
 // when exactly one such pointer with that reference was stored.
-func (x *Exec) reattachInterior(v Val) Val {
+func (x *Exec) reattachInterior(st *State, v Val) Val {
 	if _, ok := v.T.Underlying().(*types.Pointer); ok && len(v.C) == 1 {
-		if l := x.interior[v.C[0]]; len(l) == 1 {
+		if l := st.interior[v.C[0]]; len(l) == 1 {
 			v.LV = l[0]
 		}
 	}
@@ -1063,14 +1072,30 @@ func (x *Exec) makeInterface(st *State, v Val, static types.Type, itype types.Ty
 	st.store(lv, Val{T: static, C: v.C}, "")
 	x.dropLastWrites(st, len(v.C))
 	if v.LV != nil {
-		x.interior[ref] = append(x.interior[ref], v.LV)
+		st.addInterior(ref, v.LV)
 	}
 	return Val{T: itype, C: []*Term{id, ref}}
 }
 
+// addInterior remembers (per path) that `ref` stands for the interior address lv.
+func (st *State) addInterior(ref *Term, lv *LVal) {
+	for _, o := range st.interior[ref] {
+		if o.Prefix == lv.Prefix && o.Ref == lv.Ref && o.Idx == lv.Idx && o.Path == lv.Path {
+			return
+		}
+	}
+	n := make(map[*Term][]*LVal, len(st.interior)+1)
+	for k, v := range st.interior {
+		n[k] = v
+	}
+	old := n[ref]
+	n[ref] = append(old[:len(old):len(old)], lv)
+	st.interior = n
+}
+
 func (x *Exec) unbox(st *State, iv Val, t types.Type) Val {
 	if _, ok := t.Underlying().(*types.Pointer); ok {
-		if l := x.interior[iv.C[1]]; len(l) == 1 {
+		if l := st.interior[iv.C[1]]; len(l) == 1 {
 			return Val{T: t, C: []*Term{l[0].Ref}, LV: l[0]}
 		}
 		return Val{T: t, C: []*Term{iv.C[1]}}
@@ -1121,7 +1146,7 @@ func (x *Exec) typeAssert(fr *Frame, st *State, in *ssa.TypeAssert) Val {
 		out.C = append(out.C, ok)
 		if val.LV != nil {
 			// keep the address for the ok case
-			x.tupleLV[out.C[0]] = val.LV
+			out.LV = val.LV // element 0 of the (value, ok) pair is an interior address
 		}
 		return out
 	}
